@@ -142,7 +142,7 @@ pub fn run(args: Args) -> ! {
             }
         }
     }
-    let cases = args.tier.pick(40_000, 1_500_000);
+    let cases = args.tier.pick(250_000, 3_000_000);
     let run = run_tape("C02.generated", &prop_generated, 3000, cases, args.seed, workers());
     finish_run(&mut rep, "generated", run);
     for c in ["str-basic", "str-literal", "str-ml-basic", "str-ml-literal", "str-escape", "line-continuation", "int-hex", "int-oct", "int-bin", "underscore", "float-sci", "float-plain", "float-nan", "float-inf", "dt-offset", "dt-local", "date", "time", "dotted-key", "inline-table", "aot-header", "std-header", "sub-before-super", "quoted-key", "crlf", "crlf-in-ml-string"] {
